@@ -131,6 +131,8 @@ func SetConstraints(sys semver.System, level int) []string {
 		for _, t := range tri {
 			out = append(out, t[0]+" || "+t[1]+" || "+t[2], t[2]+" || "+t[1]+" || "+t[0], t[1]+" || "+t[0]+" || "+t[2])
 		}
+		// closed and open spans with one upper bound and different lower bounds
+		out = append(out, "1.2.3 - 2.0.0", ">=1.2.3 <2.0.0", "0.2 - 2.0.0", ">=1 <2", "0.0.3 - 1.2.3", ">=0.2 <1.2.3", ">=1.2.3-alpha <=2.0.0", ">1.2.3 <2.0.0")
 		out = append(out, ">=0.2 <1 || >=1.2.3 <2", ">=1.2.3 <2 || >=0.2 <1", ">0.0.3 <=0.2.0 || >0.2.0 <1", ">=0.1.1 <1 || ~>2", "<0.2 ^0.2", ">=1 <1", ">1 <=1", ">=1.2.3 <=1.2.3", ">1.2.3 <1.2.3")
 	} else {
 		out = append(out, ">=0.2, <1, >0.0.3", "<0.2, ^0.2", ">=1, <1", ">1, <=1", ">=1.2.3, <=1.2.3", ">1.2.3, <1.2.3", ">=1.2.3-alpha, <1.2.3", "^0.0, <0.0.3")
